@@ -20,14 +20,27 @@ package crashmonitor
 //@   ensures result1 != nil ==> result0 == ""
 //@   ensures result1 == nil ==> len(result0) <= 4096
 //@   at call EncodeStack#1: assert len(arg0) <= 16 && len(arg0) >= 1 && arg1 == "crash/crash"
-//@   modifies nothing
+//@   modifies $nopath
 
 // parseStackPCs is total: no panic on any text, and the scan terminates.
 //@ contract parseStackPCs
+// Lines are classified as received: the sentinel, goroutine-header and
+// running-status tests look at the raw line (the runtime indents continuation
+// lines of a panic message; trimming would let message text pose as a header).
+//@   at call HasPrefix#1: assert arg0 == lines[i]
+//@   at call HasPrefix#2: assert arg0 == lines[i]
+//@   at call Contains#1: assert arg0 == lines[i]
 //@   ensures result1 != nil ==> len(result0) == 0
 // The sentinel is taken from the first "sentinel " line only: later text that
 // looks like one cannot shift the program counters.
 //@   at call Sscanf#1: assert parentSentinel == 0
 //@   loop 1: invariant 0 <= i && i <= len(lines)
 //@   loop 1: decreases len(lines)-i
+//@   modifies nothing
+
+// getPC (the second function literal of parseStackPCs): the program counter is
+// read from the text after the LAST " pc=" of the line, the position of the
+// runtime's pc field; earlier text of the line (the file name) cannot move it.
+//@ contract parseStackPCs$2
+//@   at call ParseUint#1: assert strings.LastIndex(line, " pc=") >= 0 && arg0 == line[strings.LastIndex(line, " pc=")+4:]
 //@   modifies nothing
